@@ -193,6 +193,21 @@ func (e *Env) eval(ex ast.Expr) Val {
 		switch n.Op {
 		case token.NOT:
 			return Bool{sNot(e.evalBool(n.X))}
+		case token.AND:
+			// &p.f : address of a field of a heap object
+			if sel, ok := n.X.(*ast.SelectorExpr); ok {
+				base := e.eval(sel.X)
+				if p, ok := base.(Ptr); ok && p.Cell == nil && p.Arr == "" {
+					if st, ok := p.Elem.Underlying().(*types.Struct); ok {
+						for i := 0; i < st.NumFields(); i++ {
+							if st.Field(i).Name() == sel.Sel.Name {
+								return Ptr{Ref: p.Ref, Path: append(append([]int{}, p.Path...), i), Elem: p.Elem}
+							}
+						}
+					}
+				}
+			}
+			evalFail("unsupported address-of in contract: %s", exprString(n))
 		case token.SUB:
 			v := e.eval(n.X)
 			if f, ok := v.(Flt); ok {
@@ -500,6 +515,19 @@ func (e *Env) evalCall(n *ast.CallExpr) Val {
 			}
 		}
 		evalFail("atloop(%d, ...): loop %d is not open here", ord, ord)
+	case "calls":
+		// calls("name"): how many calls to the callee of that source-level name happened on this path
+		lit, ok := n.Args[0].(*ast.BasicLit)
+		if !ok {
+			evalFail("calls needs a string literal")
+		}
+		name, _ := strconv.Unquote(lit.Value)
+		return Int{strconv.Itoa(e.st.calls[name])}
+	case "deferred":
+		if e.fr == nil {
+			evalFail("deferred() outside a function body")
+		}
+		return Int{strconv.Itoa(len(e.st.defers[e.fr.id]))}
 	case "old":
 		if e.old == nil {
 			return e.eval(n.Args[0])
@@ -590,6 +618,20 @@ func (e *Env) evalCall(n *ast.CallExpr) Val {
 			return e.x.unbox(y, types.Typ[types.String])
 		}
 		evalFail("strval of %T", v)
+	case "as":
+		// as(x, "*pkg.T"): the value of interface x viewed as the named concrete type
+		v := e.eval(n.Args[0])
+		iv, ok := v.(Iface)
+		lit, ok2 := n.Args[1].(*ast.BasicLit)
+		if !ok || !ok2 {
+			evalFail("as needs an interface value and a type name literal")
+		}
+		name, _ := strconv.Unquote(lit.Value)
+		t := e.x.eng.typeByName(name)
+		if t == nil {
+			evalFail("as: unknown type %q", name)
+		}
+		return e.x.unbox(iv, t)
 	case "isnil":
 		v := e.eval(n.Args[0])
 		c, ok := valEqual(v, nilOf(v))
